@@ -1170,10 +1170,19 @@ pub fn gen_plan(rng: &mut Rng, feat: Feat) -> Plan {
     let mut order: Vec<(&str, Ty)> = FIELDS.to_vec();
     rng.shuffle(&mut order);
     let len = *rng.pick(&[1usize, 1, 2, 2, 3, 3, 4, 4, 5, 6]);
-    let chain: Vec<(String, Lit)> = order[..=len]
+    let mut chain: Vec<(String, Lit)> = order[..=len]
         .iter()
         .map(|(f, t)| (f.to_string(), random_lit(rng, *t)))
         .collect();
+    if feat.op_in_string && rng.bool() {
+        // a derived string node of the chain carries an operator token: the rule that concludes it
+        // writes `F = "a>=b"` and the next rule's premise `F == "a>=b"` becomes a sub-goal text
+        let strs: Vec<usize> = (1..=len).filter(|i| field_ty(&chain[*i].0) == Ty::Str).collect();
+        if !strs.is_empty() {
+            let i = *rng.pick(&strs);
+            chain[i].1 = Lit::S(rng.pick(&HOSTILE_STRINGS).to_string());
+        }
+    }
     let side: Vec<(String, Lit)> = order[len + 1..]
         .iter()
         .map(|(f, t)| (f.to_string(), random_lit(rng, *t)))
